@@ -112,9 +112,8 @@ func runC10(c *Ctx) {
 	}
 	nReads := 0
 	for _, r := range readers {
-		fn := c.fn(r.rel, r.fn)
+		fn := c.mustFn("C10-R3", r.rel, r.fn)
 		if fn == nil {
-			c.ob("C10-R3", r.rel+"."+r.fn+"#anchor-missing", token.NoPos, false, "bytecode reader "+r.fn+" not found")
 			continue
 		}
 		isBuf := func(v ssa.Value) bool {
